@@ -428,7 +428,7 @@ RULE = (
     "cash only/options x open bar/closed bar/cash moved on closed bars/held instrument missing from the book; gmx none/glp/glp+reward/gm; "
     "judged at bar end or after an operation) in which the market holds something or the bar is hostile"
 )
-BUDGET = {"quick": {"runs": 1800, "wall": 48}, "thorough": {"runs": 40000, "wall": 1100}}
+BUDGET = {"quick": {"runs": 1800, "wall": 44}, "thorough": {"runs": 40000, "wall": 1100}}
 LEVEL = "exploration"
 ASSUMPTIONS = [
     "bar interval is 1 minute (an option market alone: one bar per listed hour); what a resampled bar's data row is, is the subject of C02/C05/C08, not restated here",
